@@ -190,4 +190,22 @@ func init() {
 		Covers: map[string][]string{"VH_C03_batching": {"end", "split"}},
 		Bounds: map[string]string{"quick": "TBD", "thorough": "TBD"},
 	}
+	props["C10"] = &Property{
+		Title: "revisions follow commit order; linearizable reads",
+		Instances: func(tier string) []*Instance {
+			tb := "storage/table"
+			var r []*Instance
+			for k := int64(0); k <= 5; k++ {
+				r = append(r, &Instance{Pkg: tb, Func: "VH_C10_revision", Args: []int64{k, 0}, Unwind: 32})
+				if tier == "thorough" || k == 0 || k == 3 {
+					r = append(r, &Instance{Pkg: tb, Func: "VH_C10_revision", Args: []int64{k, 1}, Unwind: 32})
+				}
+			}
+			r = append(r, &Instance{Pkg: tb, Func: "VH_C10_readpath", Unwind: 32})
+			r = append(r, &Instance{Pkg: tb, Func: "VH_C10_vacuity", Expect: "violated"})
+			return r
+		},
+		Covers: map[string][]string{"VH_C10_revision": {"end"}, "VH_C10_readpath": {"end", "linearizable"}},
+		Bounds: map[string]string{"quick": "TBD", "thorough": "TBD"},
+	}
 }
